@@ -135,6 +135,8 @@ enum CutoffD {
 enum Operand {
     Handle(usize),      // top-level node handle (only before resolution)
     Outer(I),           // captured node
+    Late(usize),        // looked up in the handle table when the closure runs
+    Foreign,            // a node of another IncrState
     Local(usize, usize),
 }
 #[derive(Clone)]
@@ -245,11 +247,16 @@ impl P {
     }
     fn is_operand(t: &str) -> bool {
         let b = t.as_bytes();
-        b.len() >= 2 && (b[0] == b'o' || b[0] == b'l') && b[1].is_ascii_digit()
+        b.len() >= 2 && (b[0] == b'o' || b[0] == b'l' || b[0] == b't') && b[1].is_ascii_digit()
     }
     fn operand_of(t: &str) -> Operand {
+        if t == "foreign" {
+            return Operand::Foreign;
+        }
         if let Some(r) = t.strip_prefix('o') {
             Operand::Handle(r.parse().unwrap())
+        } else if let Some(r) = t.strip_prefix('t') {
+            Operand::Late(r.parse().unwrap())
         } else if let Some(r) = t.strip_prefix('l') {
             let (d, i) = r.split_once('.').expect("operand");
             Operand::Local(d.parse().unwrap(), i.parse().unwrap())
@@ -341,6 +348,9 @@ struct Ctx {
     vars: RefCell<Vec<Option<Var<Val>>>>,
     obs: RefCell<Vec<Vec<Observer<Val>>>>,
     exports: RefCell<Vec<I>>,
+    hnodes: RefCell<Vec<Option<I>>>,
+    foreign_node: I,
+    _foreign_state: IncrState,
     inv_count: Cell<usize>,
     crash_at: Cell<Option<usize>>,
 }
@@ -609,6 +619,8 @@ fn resolve(locals: &[I], o: &Operand) -> I {
     match o {
         Operand::Outer(n) => n.clone(),
         Operand::Local(0, i) => locals[*i].clone(),
+        Operand::Late(h) => ctx().hnodes.borrow()[*h].clone().expect("harness: node handle dropped"),
+        Operand::Foreign => ctx().foreign_node.clone(),
         _ => panic!("harness: unresolved operand"),
     }
 }
@@ -671,7 +683,6 @@ fn mk_bind(state: &WeakState, lhs: &I, f: BindFn) -> I {
 struct Interp {
     state: IncrState,
     ctx: Rc<Ctx>,
-    hnodes: Vec<Option<I>>,
     hsubs: Vec<Option<SubscriptionToken>>,
     dump: bool,
 }
@@ -686,21 +697,29 @@ fn token_number(t: &SubscriptionToken) -> i64 {
 impl Interp {
     fn new(max_height: usize, dump: bool) -> Self {
         let state = IncrState::new_with_height(max_height);
+        let foreign = IncrState::new();
+        let foreign_node = foreign.constant(Val::Int(0));
         let ctx = Rc::new(Ctx {
             state: state.weak(),
             vars: RefCell::new(vec![]),
             obs: RefCell::new(vec![]),
             exports: RefCell::new(vec![]),
+            hnodes: RefCell::new(vec![]),
+            foreign_node,
+            _foreign_state: foreign,
             inv_count: Cell::new(0),
             crash_at: Cell::new(None),
         });
         CTX.with(|c| *c.borrow_mut() = Some(ctx.clone()));
-        Interp { state, ctx, hnodes: vec![], hsubs: vec![], dump }
+        Interp { state, ctx, hsubs: vec![], dump }
     }
     fn push(&mut self, n: I) -> String {
         let r = n.verif_rank();
-        self.hnodes.push(Some(n));
+        self.ctx.hnodes.borrow_mut().push(Some(n));
         format!("node {r}")
+    }
+    fn h(&self, i: usize) -> I {
+        self.ctx.hnodes.borrow()[i].clone().expect("harness: node handle dropped")
     }
     fn obs0(&self, o: usize) -> Option<Observer<Val>> {
         self.ctx.obs.borrow()[o].first().cloned()
@@ -732,19 +751,19 @@ impl Interp {
                 let effs = p.effs();
                 let mut args = vec![];
                 while p.peek().is_some() {
-                    args.push(self.hnodes[p.nat()].clone().expect("harness: node handle dropped"));
+                    args.push(self.h(p.nat()));
                 }
                 let n = mk_map(&w, fid, 0, effs, &args);
                 self.push(n)
             }
             "mapref" => {
                 let pr = p.int();
-                let n = mk_mapref(pr, &self.hnodes[p.nat()].clone().expect("harness: node handle dropped"));
+                let n = mk_mapref(pr, &self.h(p.nat()));
                 self.push(n)
             }
             "mapold" => {
                 let f = p.int();
-                let n = mk_mapold(f, 0, &self.hnodes[p.nat()].clone().expect("harness: node handle dropped"));
+                let n = mk_mapold(f, 0, &self.h(p.nat()));
                 self.push(n)
             }
             "fold" => {
@@ -752,40 +771,40 @@ impl Interp {
                 let init = p.int();
                 let mut args = vec![];
                 while p.peek().is_some() {
-                    args.push(self.hnodes[p.nat()].clone().expect("harness: node handle dropped"));
+                    args.push(self.h(p.nat()));
                 }
                 let n = mk_fold(&w, f, 0, init, args);
                 self.push(n)
             }
             "zip" => {
-                let a = self.hnodes[p.nat()].clone().expect("harness: node handle dropped");
-                let b = self.hnodes[p.nat()].clone().expect("harness: node handle dropped");
+                let a = self.h(p.nat());
+                let b = self.h(p.nat());
                 // zip produces Incr<(Val, Val)>; bring it back to Incr<Val> would add a node, so the
                 // harness uses the same construction zip uses (incr.rs:135) at type Val
                 let n = zip_val(&w, &a, &b);
                 self.push(n)
             }
             "dependon" => {
-                let a = self.hnodes[p.nat()].clone().expect("harness: node handle dropped");
-                let b = self.hnodes[p.nat()].clone().expect("harness: node handle dropped");
+                let a = self.h(p.nat());
+                let b = self.h(p.nat());
                 let n = a.depend_on(&b);
                 self.push(n)
             }
             "bind" => {
-                let lhs = self.hnodes[p.nat()].clone().expect("harness: node handle dropped");
+                let lhs = self.h(p.nat());
                 let f = p.bindfn();
-                let f = handles_bindfn(&self.hnodes, &f);
+                let f = handles_bindfn(&self.ctx.hnodes.borrow(), &f);
                 let n = mk_bind(&w, &lhs, f);
                 self.push(n)
             }
             "cutoff" => {
-                let n = self.hnodes[p.nat()].clone().expect("harness: node handle dropped");
+                let n = self.h(p.nat());
                 let c = P::cutoff(&p.next());
                 apply_cutoff(&n, &c);
                 "ok".into()
             }
             "observe" => {
-                let o = self.hnodes[p.nat()].clone().expect("harness: node handle dropped").observe();
+                let o = self.h(p.nat()).observe();
                 let mut obs = self.ctx.obs.borrow_mut();
                 obs.push(vec![o]);
                 format!("obs {}", obs.len() - 1)
@@ -961,7 +980,7 @@ impl Interp {
             }
             "dropnode" => {
                 let h = p.nat();
-                let n = self.hnodes[h].take();
+                let n = self.ctx.hnodes.borrow_mut()[h].take();
                 drop(n);
                 "ok".into()
             }
@@ -1022,6 +1041,8 @@ fn panic_tag(msg: &str, loc: &str) -> String {
         "NotInRch"
     } else if m.contains("uninitialised var or abandoned watch node") {
         "AbandonedWatch"
+    } else if m.contains("weak_thin_ptr_eq(rhs.weak_state()") {
+        "CrossState"
     } else if m.contains("left == right") && m.contains("NotStabilising") && loc.contains("state.rs") {
         "NestedStabilise"
     } else if m.contains("Option::unwrap()") || m.contains("Result::unwrap()") || m.contains("expect") {
